@@ -42,6 +42,9 @@ type Case struct {
 	// configuration, several tunnels one after the other): a session with an earlier member must
 	// not make a later one admit the client
 	Separate bool `json:"separate,omitempty"`
+	// Files: certificate material reaches both configurations through files ("abs" absolute
+	// paths, "rel" relative to the configuration file) instead of inline PEM text
+	Files string `json:"files,omitempty"`
 }
 
 func (m Member) String() string {
@@ -70,6 +73,9 @@ func (c Case) String() string {
 	}
 	if c.Separate {
 		u += " separate-tunnels"
+	}
+	if c.Files != "" {
+		u += " cert-files=" + c.Files
 	}
 	return fmt.Sprintf("[%s] insecure=%v clientCert=%q knowsCA=%v%s", s, c.Insecure, c.ClientCert, c.KnowsCA, u)
 }
@@ -104,12 +110,13 @@ func execute(t *testing.T, c Case) (kind, detail string) {
 		var list []upstream.Upstream
 		for _, m := range c.Members {
 			o := world.Options{Carrier: m.Carrier, TLS: m.TLS, Channels: []string{"x"}, ServerCert: m.Cert, RequireClientCert: m.Require, ServerTrustsForeignCA: m.TrustsForeign,
-				Host: m.Host, Keep: true, Insecure: c.Insecure, ClientKnowsCA: c.KnowsCA, ClientCert: c.ClientCert}
+				Host: m.Host, Keep: true, Insecure: c.Insecure, ClientKnowsCA: c.KnowsCA, ClientCert: c.ClientCert, CertFiles: c.Files}
 			w, err := world.New(o)
 			if err != nil {
 				kind, detail = "setup", err.Error()
 				return
 			}
+			defer w.RemoveCertFiles()
 			worlds = append(worlds, w)
 			list = append(list, w.Front)
 		}
@@ -243,6 +250,20 @@ func cases(thorough bool) []Case {
 			}
 		}
 	}
+	// the same material through files (absolute, and relative to the configuration file)
+	for _, files := range []string{"abs", "rel"} {
+		for _, cr := range []cv{{"stream", true}, {"stream", false}, {"ws", true}} {
+			for _, cert := range []string{"good", "untrusted", "wronghost"} {
+				for _, insecure := range []bool{false, true} {
+					for _, cc := range []string{"", "good", "foreign"} {
+						for _, req := range []bool{false, true} {
+							out = append(out, Case{Members: []Member{{Carrier: cr.carrier, TLS: cr.tls, Cert: cert, Host: "server.test", Require: req}}, Insecure: insecure, ClientCert: cc, KnowsCA: true, Files: files})
+						}
+					}
+				}
+			}
+		}
+	}
 	// two upstreams tried with one client configuration: what the first attempt did must not
 	// change what is required of the second
 	firsts := []Member{
@@ -309,7 +330,7 @@ func TestCheck(t *testing.T) {
 			if len(c.Members) > 1 {
 				kind += "|after-earlier-attempt"
 			}
-			r.Fail(kind, fmt.Sprintf("%s: %s", c, detail), len(c.Members)*10+len(c.ClientCert), c)
+			r.Fail(kind+map[bool]string{true: "|cert-files", false: ""}[c.Files != ""], fmt.Sprintf("%s: %s", c, detail), len(c.Members)*10+len(c.ClientCert), c)
 		}
 	}
 	if r.Replay != nil {
